@@ -278,6 +278,8 @@ def install_where_median(R):
         out.cell.where_of = (cond, fm, rank, unrank)
         return (out,)
     R.fns["numpy.where"] = _where
+    # numpy.flatnonzero(mask) of a 1-d boolean mask: the selected positions in increasing order (what numpy.where(mask)[0] gives)
+    R.fns["numpy.flatnonzero"] = lambda E, cond: _where(E, cond)[0]
     R.fns["numpy.nonzero"] = _where
 
     def _median(E, a, axis=None, **kw):
